@@ -141,7 +141,7 @@ MANIFEST = {
     "technique": "Lean 4 machine-checked proof over an executable model + source-to-Lean translator of generator function "
                  "bodies (harness/props/c19_tr.py -> lean/ALV/Gen/C19Src.lean, theorems src_*_is_model re-checked on every run) "
                  "+ differential correspondence with the implementation (exact and bit for bit on binary64)",
-    "text": "107 Lean 4 theorems. The bodies of modulo_counter (8-way isinstance dispatch, 12 loops, every `% modulo` "
+    "text": "105 Lean 4 theorems. The bodies of modulo_counter (8-way isinstance dispatch, 12 loops, every `% modulo` "
             "counted), line, fadein, fadeout, attack, adsr, ones, zeros, impulse are REGENERATED from the source text on every run and proved equal "
             "to the code shaped models (src_modulo_counter_is_model, src_line_is_model, src_adsr_is_model, "
             "src_attack_is_model, src_ones_is_model, src_impulse_is_model, ...), hence to the specifications over exact numbers. Float regime: operation-generic generators (record NumOps) run on IEEE binary64 predict the "
